@@ -79,6 +79,34 @@ Definition run_conc (a : sx) : sx :=
   | _ => sx_err "shape"
   end.
 
+(* c16.lvl: (dag root kind _) -> (cell-hash decoded): the representation hash
+   (level 3) of the cell at [root], a cell of any level anywhere in the array,
+   and what decoding it as a message (kind 0) / transaction (kind 1) reports:
+   'err | (hash normalised-hash) | (hash (in_msg-hash)?).  The fourth component
+   tells the Go side how to warm the hasher cache first; the model is pure. *)
+Definition run_lvl (a : sx) : sx :=
+  match a with
+  | SL (SL dag :: SN root :: SN kind :: _) =>
+      with_root (SL [SL dag; SN root]) (fun o cells k c imms =>
+        SL [sx_res SBytes (cached_hash_of imms k);
+            match kind with
+            | N0 =>
+                match decode_message_gen o (cached_hash_of imms k) c with
+                | Ok m => SL [SBytes (m_hash m); sx_res SBytes (msg_hash sha256 true m)]
+                | Err _ => SA "err"
+                | Panic _ => SA "panic"
+                end
+            | _ =>
+                match decode_tx_gen o (cached_hash_of imms k) (hash_cell sha256) c with
+                | Ok t => SL [SBytes (tx_hash t);
+                              match tx_in_msg t with Some m => SL [SBytes (m_hash m)] | None => SL [] end]
+                | Err _ => SA "err"
+                | Panic _ => SA "panic"
+                end
+            end])
+  | _ => sx_err "shape"
+  end.
+
 (* c16.lib: (dag root target) -> as c16.msg, decoded by a Decoder whose library
    resolver answers every hash with the cell at index [target] *)
 Definition run_lib (a : sx) : sx :=
@@ -249,6 +277,7 @@ Definition run_hmsg (a : sx) : sx :=
 Definition run (name : string) (a : sx) : sx :=
   if String.eqb name "c16.msg" then run_msg a
   else if String.eqb name "c16.tx" then run_tx a
+  else if String.eqb name "c16.lvl" then run_lvl a
   else if String.eqb name "c16.lib" then run_lib a
   else if String.eqb name "c16.conc" then run_conc a
   else if String.eqb name "c16.htx" then run_htx a
